@@ -196,11 +196,11 @@ def main():
     ck = Check("C05")
     if ck.replay:
         body = json.load(open(os.path.join(VERIF, ck.replay) if not os.path.isabs(ck.replay) else ck.replay))
-        run_case(ck, body["case"])
+        ck.guard(run_case, ck, body["case"])
         ck.finish(rule="replay of one recorded case")
     ck.lean_obligations(['CvProps.C05a', 'CvProps.C05b'], THEOREMS)
     for case in json.load(open(os.path.join(VERIF, "harness", "corpus", "C05.json"))):
-        run_case(ck, case)
+        ck.guard(run_case, ck, case)
         ck.count("corpus")
     cap = 800 if not ck.thorough else 15000
     for _ in range(45 if not ck.thorough else 1500):
@@ -216,4 +216,6 @@ def main():
 
 
 if __name__ == "__main__":
-    main()
+    from cv.core import run_main
+
+    run_main(main)
